@@ -13,6 +13,7 @@ class Sim:
     def run(self, t):
         k = t[0]
         if k == 'ret': return t[1]
+        if k == 'retexc': return ExcVal(t[1])    # an exception *value* handed on normally: nothing is raised
         if k == 'print':
             self.out += t[1] + "\n"
             return None
@@ -45,6 +46,10 @@ class Sim:
         raise ValueError(k)
 
 
+class ExcVal:
+    def __init__(self, n): self.n = n
+
+
 class SimErr(Exception):
     def __init__(self, payload):
         self.payload = payload
@@ -53,6 +58,7 @@ class SimErr(Exception):
 def fmt(v):
     if v is None: return "Nil"
     if isinstance(v, str): return "'" + v + "'"
+    if isinstance(v, ExcVal): return f"<예외: [{v.n}]>"
     return str(v)
 
 
@@ -60,7 +66,15 @@ def rand_tree(rng, depth):
     """returns (program expression, oracle tree)"""
     c = rng.random()
     if depth <= 0 or c < 0.25:
-        k = rng.randrange(4)
+        k = rng.randrange(5)
+        if k == 4:
+            # an action that *returns* an exception value without raising (seeded change S07g: such a value must go
+            # to the continuation, never to the handler)
+            n = rng.randint(30, 39)
+            if rng.random() < 0.5:
+                return bi('ㄱㅅ', bi('ㄷㅂ', lit(n))), ('retexc', n)
+            # … or because an inner ㄱㄹ caught a raised exception and returned it as data
+            return raw(f"(((ㄱ ㄱㅅㅎㄴ) ({enc(n)} ㄷㅂㅎㄴ ㄷㅈㅎㄴ ㅎ) ㄱㄹㅎㄷ) ㄱㅅ ㄱㅅ ㄱㄹㅎㄹ)"), ('retexc', n)
         if k == 0:
             n = rng.randint(-9, 99)
             return bi('ㄱㅅ', lit(n)), ('ret', n)
